@@ -217,7 +217,7 @@ impl Ord for Rank {
             (Rank::First(_), Rank::Last(_, _)) => Ordering::Less,
             (Rank::Last(_, _), Rank::First(_)) => Ordering::Greater,
 
-            (Rank::Emoji(_, _), Rank::Emoji(_, _)) => Ordering::Equal,
+            (Rank::Emoji(_, e1), Rank::Emoji(_, e2)) => e1.cmp(e2),
             (Rank::Emoji(_, e), Rank::Other(_, s)) => e.cmp(s),
             (Rank::Other(_, s), Rank::Emoji(_, e)) => s.cmp(e),
             (Rank::Emoji(_, _), Rank::Last(_, _)) => Ordering::Less,
